@@ -327,12 +327,13 @@ theorem complete_wide (hm : SetMeasure m) (hv : validateJoin m.name a t = .ok (l
     (hpl : Present l a.lAttr ls) (hpr : Present r a.rAttr rs)
     (hne : Spec.bothEmpty (tokensOf (toks true) l a.lAttr ls) (tokensOf (toks true) r a.rAttr rs) = false)
     (hq : Spec.qualStrict m a.compOp a.threshold (tokensOf (toks true) l a.lAttr ls)
-      (tokensOf (toks true) r a.rAttr rs) = true) :
+      (tokensOf (toks true) r a.rAttr rs) = true)
+    (hb : Props.BodyOK a.toTableArgs l r a.outSimScore) :
     ∃ fr, (setSimJoinPy m a t toks cpu).result = .ok fr ∧
       ∃ row ∈ fr.rows, rowKeys row = (keyOf l a.lKey ls, keyOf r a.rKey rs) ∧
         (a.outSimScore = true → rowScore row = scoreCell (Spec.score4 m (tokensOf (toks true) l a.lAttr ls)
           (tokensOf (toks true) r a.rAttr rs))) := by
-  obtain ⟨fr, hres, hrows⟩ := result_rows m a t toks cpu l r hv
+  obtain ⟨fr, hres, hrows⟩ := result_rows m a t toks cpu l r hv hb
   obtain ⟨-, -, hop⟩ := of_validateJoin hm hv
   have hmem := chunkPart_complete_wide m a toks cpu l r hm hop hth hs ls hls rs hrs hpl hpr hne hq
   obtain ⟨i, hi⟩ := mem_rows_intro (payload m a toks cpu l r) _ (List.mem_append_left _ hmem)
